@@ -140,6 +140,14 @@ def opDivArith (j : Json) : M Json := do
       ("chip", jExcDiv (dChip cv : Except Unit (Divisor n))),
       ("zero", jDiv (dZero : Divisor n)),
       ("result_aliases_operand", jBool false),
+      ("eq_other", Json.arr #[jBool false, jBool false, jBool true]),
+      -- `D.remove_vertex(v)`: the induced graph with the remaining chip counts (cached total = their sum)
+      ("rmv", match ref? n cv with
+        | some v =>
+          let keep := (List.finRange n).filter (· ≠ v)
+          Json.mkObj [("graph", jGraphMinus (removeVertex G v) v), ("deg", jInts (keep.map A)),
+                      ("total", jInt ((keep.map A).foldl (· + ·) 0))]
+        | none => err),
       ("A_after", jDiv (Divisor.ofFn A)), ("B_after", jDiv (Divisor.ofFn B)),
       ("graph", jGraph G)])
 
